@@ -152,11 +152,12 @@ theorem extendAll_frame {g : Bool} {diff ns : Nat} {l : List BA} : ∀ {s s' : S
         have f2 := ih h2
         exact ⟨f1.1.trans f2.1, by simp [sumCv, f1.2, f2.2.1], by simp [f1.2, f2.2.2]⟩
 
-/-- no per-blobber decrement of `adjustChallengePool` exceeds the blobber's challenge value (no `uint64` wrap) -/
+/-- no per-blobber decrement of `adjustChallengePool` exceeds the blobber's challenge value and no increment passes
+2^64 (no `uint64` wrap in either direction) -/
 def noWrapCv : List Nat → List Int → Bool
   | [], _ => true
   | _, [] => true
-  | c :: cs, x :: xs => (decide (x ≥ 0) || decide ((-x).toNat ≤ c)) && noWrapCv cs xs
+  | c :: cs, x :: xs => (if x ≥ 0 then decide (c + x.toNat < 2 ^ 64) else decide ((-x).toNat ≤ c)) && noWrapCv cs xs
 
 def noWrap (bas : List BA) (xs : List Int) : Bool := noWrapCv (bas.map (·.cv)) xs
 
@@ -206,17 +207,20 @@ theorem adjust_cv {bas : List BA} : ∀ {xs : List Int} {wp cp mtc mb : Nat} {ba
     cases xs with
     | nil => simp [adjust] at h
     | cons x xs =>
-      simp only [noWrap, List.map_cons, noWrapCv, Bool.and_eq_true, Bool.or_eq_true, decide_eq_true_eq] at hnw
+      simp only [noWrap, List.map_cons, noWrapCv, Bool.and_eq_true] at hnw
       simp only [adjust] at h
       split at h
-      · split at h
+      · rename_i hpos
+        split at h
         · cases h
         · split at h
           · cases h
           · rename_i hwp _ ds' wp1 cp1 mtc1 mb1 hrec
             cases h
             have := ih hrec hnw.2
-            simp only [sumCv]
+            have hlt : d.cv + x.toNat < 2 ^ 64 := by
+              have h1 := hnw.1; rw [if_pos hpos] at h1; exact of_decide_eq_true h1
+            simp only [sumCv, wrapAdd, hlt, if_true]
             omega
       · rename_i hneg
         split at h
@@ -227,9 +231,7 @@ theorem adjust_cv {bas : List BA} : ∀ {xs : List Int} {wp cp mtc mb : Nat} {ba
             cases h
             have := ih hrec hnw.2
             have hle : (-x).toNat ≤ d.cv := by
-              rcases hnw.1 with h1 | h1
-              · exact absurd h1 hneg
-              · exact h1
+              have h1 := hnw.1; rw [if_neg hneg] at h1; exact of_decide_eq_true h1
             simp only [sumCv, wrapSub, hle, if_true]
             omega
 
